@@ -60,7 +60,9 @@ static uint8_t BIN[4096]; static size_t bin_len, bin_pos;
 static int bin_wr (MIR_context_t c, uint8_t b) { if (bin_len < sizeof BIN) BIN[bin_len++] = b; return 1; }
 static int bin_rd (MIR_context_t c) { return bin_pos < bin_len ? BIN[bin_pos++] : EOF; }
 static int null_wr (MIR_context_t c, uint8_t b) { return 1; }
-static const char *CSRC = "long fc (long x) { long a[4]; for (int i = 0; i < 4; i++) a[i] = x + i; return a[3] * 2 + 1; }\n"; static size_t cpos;
+/* the source walks more of c2mir's allocation sites: identical and empty macro redefinitions, function-like macros with stringification and pasting, #if, a struct, a string, a switch */
+static const char *CSRC = "#define N 4\n#define N 4\n#define F(x) ((x) + 1)\n#define F(x) ((x) + 1)\n#define E\n#define E\n#define S(x) #x\n#define C(a, b) a ## b\n#undef E\n#if N > 3 && defined (F)\n"
+                          "struct P { int a; char s[4]; };\nlong fc (long x) { long a[N]; struct P p = {3, S (ab)}; for (int i = 0; i < N; i++) a[i] = F (x) + i; switch (x & 1) { case 0: x++; break; default: x--; } return a[3] * 2 + 1 + p.a + p.s[0] + C (x, ) * 0; }\n#endif\n"; static size_t cpos;
 static int cgetc (void *d) { return CSRC[cpos] ? CSRC[cpos++] : EOF; }
 
 static void *w_fresh (void *cfg) {
@@ -116,13 +118,14 @@ static int w_apply (void *p, int op, int step, int check) {
   case C_C2M: { if (!w->c2m_init) { c2mir_init (ctx); w->c2m_init = 1; } struct c2mir_options o; memset (&o, 0, sizeof o); o.message_file = stderr; cpos = 0;
       if (!c2mir_compile (ctx, &o, cgetc, NULL, "fc.c", NULL)) { failh ("harness", "c2mir_compile failed"); } w->mod[C_C2M] = last_module (w); break; }
   case O_LOAD: for (int k = 0; k < NCREATE; k++) if (w->created[k] && !w->loaded[k]) { MIR_load_module (ctx, w->mod[k]); w->loaded[k] = 1; } break;
-  case O_LINK_INTERP: MIR_link (ctx, MIR_set_interp_interface, NULL); w->iface = 1; break;
+  case O_LINK_INTERP: MIR_load_external (ctx, "memset", memset); MIR_load_external (ctx, "memcpy", memcpy); MIR_link (ctx, MIR_set_interp_interface, NULL); w->iface = 1; break;
   case O_LINK_GEN: case O_LINK_LAZY: case O_LINK_LAZYBB:
     if (!w->gen_init) { MIR_gen_init (ctx); w->gen_init = 1; MIR_gen_set_optimize_level (ctx, w->level); }
+    MIR_load_external (ctx, "memset", memset); MIR_load_external (ctx, "memcpy", memcpy);
     MIR_link (ctx, op == O_LINK_GEN ? MIR_set_gen_interface : op == O_LINK_LAZY ? MIR_set_lazy_gen_interface : MIR_set_lazy_bb_gen_interface, NULL); w->iface = 2; break;
   case O_RUN: for (int k = 0; k < NCREATE; k++) if (w->linked[k]) { MIR_item_t f = find_func (w, k); int64_t r;
         if (w->iface == 1) { MIR_val_t res, a; a.i = 5; MIR_interp_arr (ctx, f, &res, 1, &a); r = res.i; } else r = ((int64_t (*) (int64_t)) f->addr) (5);
-        int64_t want = k == C_API ? 6 : k == C_SCAN ? 15 : k == C_BIN ? 12 : 17; if (check && r != want) failh ("wrong-result", "%s(5) returned %lld, expected %lld", FNAME[k], (long long) r, (long long) want); }
+        int64_t want = k == C_API ? 6 : k == C_SCAN ? 15 : k == C_BIN ? 12 : 119; if (check && r != want) failh ("wrong-result", "%s(5) returned %lld, expected %lld", FNAME[k], (long long) r, (long long) want); }
     break;
   case O_GEN: w->level = (w->level + 1) % 4; MIR_gen_set_optimize_level (ctx, w->level); for (int k = 0; k < NCREATE; k++) if (w->linked[k]) MIR_gen (ctx, find_func (w, k)); break;
   case O_OUTPUT: { char *b = NULL; size_t l; in_cb++; FILE *f = open_memstream (&b, &l); in_cb--; MIR_output (ctx, f); in_cb++; fclose (f); free (b); in_cb--; break; }
